@@ -134,7 +134,11 @@ class MathGen(object):
             for _ in range(r.randint(1, 3)):
                 cw, ce = [], []
                 for _ in range(nc):
-                    a, a2 = self.expr(0)
+                    # mostly atoms; now and then a whole expression (fractions, delimiters, another array among other material)
+                    deep = d > 0 and r.random() < 0.3
+                    if deep:
+                        self.features.add('array-cell-with-nested-structure')
+                    a, a2 = self.expr(d if deep else 0)
                     cw.append(a)
                     ce.append(a2)
                 rows_w.append(' & '.join(cw))
